@@ -480,6 +480,15 @@ def _chain_layout(t, leaf_layouts):
       base = _chain_layout(t.args[0].args[0], leaf_layouts)
       perm = t.args[1][0]
     return L.transpose(base, _ints(perm))
+  if n_ == 'jax.numpy.moveaxis' and len(t.args[1]) == 3:
+    base = _chain_layout(t.args[1][0], leaf_layouts)
+    return L.moveaxis(base, cval(t.args[1][1]), cval(t.args[1][2]))
+  if n_ == 'jax.numpy.swapaxes' and len(t.args[1]) == 3:
+    base = _chain_layout(t.args[1][0], leaf_layouts)
+    return L.swapaxes(base, cval(t.args[1][1]), cval(t.args[1][2]))
+  if t.op == 'attr' and t.args[1] == 'T':
+    base = _chain_layout(t.args[0], leaf_layouts)
+    return L.transpose(base, list(reversed(range(len(base)))))
   if n_ == 'jax.numpy.expand_dims':
     base = _chain_layout(t.args[1][0], leaf_layouts)
     ax = t.args[1][1] if len(t.args[1]) > 1 else dict(t.args[2]).get('axis')
